@@ -29,6 +29,22 @@ def _isnp(v):
 
 
 def res(v, den=None):
+    """encodes a result (see _res) and then uses a returned list / dict the way a caller may - in place: a result is the
+    caller's own object, so what happens to it afterwards must not change what the library answers next time (a decoder that
+    hands out a cached or module-level container is found by the next call on the same input, or by the repeated 17th call)"""
+    r = _res(v, den)
+    try:
+        if type(v) is list:
+            v.clear()
+            v.append("<scribbled-by-caller>")
+        elif type(v) is dict:
+            v.clear()
+    except Exception:  # noqa: BLE001
+        pass
+    return r
+
+
+def _res(v, den=None):
     """Tagged encoding of a decoder result. `den`: denominator used to project floats
     (int, or a list/tuple of per-position denominators for tuple results)."""
     if _isnp(v):
